@@ -21,6 +21,7 @@
 
 #include <algorithm>
 #include <array>
+#include <cmath>
 #include <cstring>
 #include <random>
 #include <sstream>
@@ -79,6 +80,11 @@ int Util::parseSize(const std::string& input, int64_t* output) {
     pos++;
   }
 
+  // nothing left to read a size from ("", " ", "+", "-")
+  if (pos >= istr.length()) {
+    return -1;
+  }
+
   while (pos < istr.length()) {
     size_t unit_pos;
     size_t end_pos;
@@ -94,13 +100,14 @@ int Util::parseSize(const std::string& input, int64_t* output) {
     auto num = istr.substr(pos, unit_pos - pos);
     auto unit = istr.c_str()[unit_pos];
 
-    double v;
+    // long double: every integer below 2^64 is represented exactly
+    long double v;
     try {
       v = std::stold(num, &end_pos);
     } catch (...) {
       return -1;
     }
-    if (end_pos != num.length() || v < 0) {
+    if (end_pos != num.length() || !std::isfinite(v) || v < 0) {
       return -1;
     }
 
@@ -122,7 +129,11 @@ int Util::parseSize(const std::string& input, int64_t* output) {
       default:
         return -1;
     }
-    size += v;
+    // the running total must stay below 2^63 so that it fits the int64 output
+    if (v >= 9223372036854775808.0L - size) {
+      return -1;
+    }
+    size += static_cast<uint64_t>(v);
     pos = unit_pos + 1;
   }
   *output = is_neg ? -size : size;
